@@ -130,8 +130,10 @@ def run(ctx, rep):
                     rep.fail("oracle", "no-recovery-after:late-handshake-replies-on-a-new-connection", sess_case(c),
                              {"outcomes": outcomes, "events": events})
             if len(c[3]) == 6:
+                # with cached credentials: after the pause everything late has arrived; both remaining exchanges meet a promptly
+                # answering appliance on a live connection and must succeed (stale packets in the queue are skipped - F10)
                 ok = [o[0] == 0 and len(o) > 1 for o in outcomes]
-                if not ok[4] and not ok[5]:
+                if not (ok[4] and ok[5]):
                     rep.fail("oracle", "no-recovery-after:late-handshake-replies", sess_case(c), {"outcomes": outcomes, "events": events})
         else:
             last = outcomes[-1]
